@@ -512,6 +512,26 @@ impl<'h> Exec<'h> {
     }
 
     /// One iteration of the real compaction loop.  Returns Ok(true) iff a compaction ran.
+    /// One unit of compaction work with the C05 before/after comparison around it.
+    fn compact_op(&mut self) -> Result<bool, String> {
+        let pre = if self.oracles.c05 {
+            Some(crate::conserve::snapshot(self)?)
+        } else {
+            None
+        };
+        let did = self.compact_step()?;
+        if did {
+            self.probes.hit("compactions");
+            self.note_store_moved();
+            if let Some(pre) = pre {
+                crate::conserve::check_after(self, pre)?;
+            }
+        } else {
+            self.probes.hit("compact_idle");
+        }
+        Ok(did)
+    }
+
     pub fn compact_step(&mut self) -> Result<bool, String> {
         let store = self.store.as_ref().ok_or("store closed")?;
         let tree = store.tree();
@@ -1258,21 +1278,13 @@ impl<'h> Exec<'h> {
                 self.note_store_moved();
                 r
             }
-            Op::Compact => {
-                let pre = if self.oracles.c05 {
-                    Some(crate::conserve::snapshot(self)?)
-                } else {
-                    None
-                };
-                let did = self.compact_step()?;
-                if did {
-                    self.probes.hit("compactions");
-                    self.note_store_moved();
-                    if let Some(pre) = pre {
-                        crate::conserve::check_after(self, pre)?;
+            Op::Compact => self.compact_op().map(|_| ()),
+            Op::CompactMany { n } => {
+                self.probes.hit("compaction_long_turns");
+                for _ in 0..*n {
+                    if !self.compact_op()? {
+                        break;
                     }
-                } else {
-                    self.probes.hit("compact_idle");
                 }
                 Ok(())
             }
